@@ -147,6 +147,17 @@ pub fn gen_shape(r: &mut Rng, shape: u8, len: usize, scale: f64, positive: bool)
         .collect()
 }
 
+/// like gen_shape, for a sign class: Any = signed values with zeros, NonNeg = magnitudes with the exact
+/// zeros kept, Positive = strictly positive
+pub fn gen_signed(r: &mut Rng, shape: u8, len: usize, scale: f64, sign: crate::spec::Sign) -> Vec<f64> {
+    use crate::spec::Sign;
+    match sign {
+        Sign::Positive => gen_shape(r, shape, len, scale, true),
+        Sign::Any => gen_shape(r, shape, len, scale, false),
+        Sign::NonNeg => gen_shape(r, shape, len, scale, false).into_iter().map(|x| x.abs()).collect(),
+    }
+}
+
 #[derive(Clone, Debug, Default)]
 pub struct FaultCfg {
     pub p_drop: f64,
